@@ -203,6 +203,8 @@ def param(draw):
     if draw(st.booleans()):
         p = p * draw(st.floats(0.5, 1.5, allow_nan=False))
     m = draw(st.integers(2, 100000) if draw(st.integers(0, 9)) == 0 else st.integers(2, 3000))
+    if draw(st.integers(0, 6)) == 0:
+        m = 1   # a range of exactly one step: lower + precision may round just below / above the upper bound
     frac = draw(st.sampled_from([0.0, 0.0, 0.5, 0.999, 0.001, 0.3]))
     hi = lo + (m + frac) * p
     return lo, hi, p
